@@ -185,6 +185,97 @@ theorem F7_witness_exact :
     periodOfRateUnfixedQ flDouble (sampleRateQ flDouble 55) = 54 ∧
     periodOfRateQ flDouble (sampleRateQ flDouble 55) = 55 := by decide +kernel
 
+/-! ## Datasets: write, classify, read back -/
+
+/-- Writing a channel with `to_dataset` and reading the dataset with `channel_class(dset).from_dataset(dset)` gives the
+    channel back — same class, same start, same period, same numbers (time tags: the same tags; their slice bounds
+    are not stored) — for every `fl` within the standard model, every period of `1 … 2^50` ns and every non-empty
+    time series. -/
+theorem write_read (fl : Rat → Rat) (hfl : StdModel fl) (s : C01.Src)
+    (hdt : ∀ c, s = .cont c → 1 ≤ c.dt ∧ c.dt ≤ 2 ^ 50) (hne : ∀ l, s = .ts l → l ≠ []) :
+    ∃ d, toDataset fl s = .ok d ∧ fromDataset fl d = .ok (reread s) := by
+  cases s with
+  | cont c =>
+    refine ⟨_, rfl, ?_⟩
+    obtain ⟨h1, h2⟩ := hdt c rfl
+    simp [fromDataset, channelClass, reread, period_round_trip fl hfl c.dt h1 h2]
+  | ts l =>
+    have hl := hne l rfl
+    obtain ⟨f, hf⟩ : ∃ f, l.head? = some f := by
+      cases l with
+      | nil => exact absurd rfl hl
+      | cons x xs => exact ⟨x, rfl⟩
+    obtain ⟨e, he⟩ : ∃ e, l.getLast? = some e := by
+      cases h : l.getLast? with
+      | none => exact absurd (List.getLast?_eq_none_iff.mp h) hl
+      | some e => exact ⟨e, rfl⟩
+    refine ⟨⟨.bytes "TimeSeries", some f.1, some (e.1 + 1), none, .compound l⟩, ?_, ?_⟩
+    · simp only [toDataset, hf, he]
+    · simp [fromDataset, channelClass, reread]
+  | tags t =>
+    refine ⟨_, rfl, ?_⟩
+    simp [fromDataset, channelClass, reread]
+
+example : toDataset flDouble (.ts []) = .error "IndexError" := by decide +kernel
+example : (toDataset flDouble (.cont ⟨100, 55, [7, 8, 9]⟩)).toOption.map (·.stop) = some (some 265) := by decide +kernel
+
+/-- `save_as(crop_time_range=(a, b))` followed by `File(new)[name]`: the channel is in the new file iff it has a sample
+    in the window, and what is read back from the written dataset (through the stored start, sample rate in double
+    arithmetic, kind and numbers) has exactly the source samples with `a ≤ t < b`. -/
+theorem cropped_export_reads_back (fl : Rat → Rat) (hfl : StdModel fl) (s : C01.Src)
+    (hdt : ∀ c, s = .cont c → 1 ≤ c.dt ∧ c.dt ≤ 2 ^ 50) (a b : Int) :
+    (channelWritten s a b = true →
+      ∃ s', cropExportRead fl s a b = .ok (some s') ∧ s'.samples = s.samples.filter (C01.inWin a b)) ∧
+    (channelWritten s a b = false → cropExportRead fl s a b = .ok none) := by
+  have hdt0 : ∀ c, s = .cont c → 0 < c.dt := fun c hc => by have := (hdt c hc).1; omega
+  constructor
+  · intro hw
+    have hlen : (cropChannel s a b).len ≠ 0 := by simpa [channelWritten] using hw
+    obtain ⟨d, hd1, hd2⟩ := write_read fl hfl (cropChannel s a b)
+      (fun c' hc' => by
+        obtain ⟨c, hc, e⟩ := crop_cont_dt s a b c' hc'
+        rw [e]; exact hdt c hc)
+      (fun l hl hnil => by
+        apply hlen; rw [hl, hnil]; rfl)
+    refine ⟨reread (cropChannel s a b), ?_, ?_⟩
+    · unfold cropExportRead
+      rw [if_pos hw, hd1]
+      simp only [hd2]; rfl
+    · rw [reread_samples, crop_is_slice s hdt0]
+  · intro hw
+    unfold cropExportRead
+    rw [hw]; rfl
+
+/-- format v1 stores no `Kind`: what `to_dataset` writes for a continuous or time-series channel is classified the
+    same without it -/
+theorem channel_class_v1 (fl : Rat → Rat) (s : C01.Src) (d : Dset) (h : toDataset fl s = .ok d)
+    (hs : ∀ t, s ≠ .tags t) : channelClass { d with kind := .absent } = channelClass d := by
+  cases s with
+  | cont c =>
+    simp only [toDataset, Except.ok.injEq] at h
+    subst h
+    simp [channelClass]
+  | ts l =>
+    simp only [toDataset] at h
+    split at h
+    · simp only [Except.ok.injEq] at h
+      subst h
+      simp [channelClass]
+    · cases h
+  | tags t => exact absurd rfl (hs t)
+
+/-- `bytes` and `str` spellings of `Kind` are read alike (Bluelake writes bytes, `to_dataset` writes either). -/
+theorem channel_class_bytes (k : String) (d : Dset) :
+    channelClass { d with kind := .bytes k } = channelClass { d with kind := .str k } := rfl
+
+/-- non-vacuity / worked instance: a 55 ns channel (the F7 period) cropped off-grid, written and read back -/
+example : cropExportRead flDouble (.cont ⟨1000, 55, [0, 1, 2, 3]⟩) 1050 1150 = .ok (some (.cont ⟨1055, 55, [1, 2]⟩)) := by
+  decide +kernel
+example : cropExportRead flDouble (.ts [(5, 0), (9, 1)]) 10 20 = .ok none := by decide +kernel
+example : channelClass ⟨.str "Scan", none, none, none, .plain []⟩ = .error "RuntimeError" := by decide +kernel
+example : channelClass ⟨.absent, none, none, none, .plain []⟩ = .error "IndexError" := by decide +kernel
+
+
 /-! ## Time-stamped metadata items -/
 
 theorem keepMeta_spec (st sp a b : Int) :
